@@ -523,7 +523,7 @@ func (runInfo *runInfoStruct) runForSliceStmt(stmt *ast.ForStmt, value reflect.V
 		if iv.Kind() == reflect.Interface && !iv.IsNil() {
 			iv = iv.Elem()
 		}
-		if iv.Kind() == reflect.Ptr {
+		if iv.Kind() == reflect.Ptr && !iv.IsNil() {
 			iv = iv.Elem()
 		}
 		runInfo.env.DefineValue(stmt.Vars[0], detach(iv))
